@@ -210,6 +210,9 @@ SCENARIOS = {
     "existing-channel": dict(programs=[["c", "c"], ["c"]], patterns=["c"], pre=["c"]),
     "pattern-routing": dict(programs=[["j.1", "k.1"], ["j.2", "j.1"]], patterns=["j.*"], pre=[]),
     "3pub-2sub": dict(programs=[["j.1", "j.2"], ["j.1"], ["k", "j.2"]], patterns=["j.*", "k"], pre=["k"]),
+    # several consumers of one channel: the test-and-pop of a subscription must be one atomic step
+    "2sub-same-channel": dict(programs=[["c"]], patterns=["c", "c"], pre=["c", "c", "c"]),
+    "exact-and-wildcard-sub": dict(programs=[["c", "d"]], patterns=["c", "*"], pre=["c", "c"]),
 }
 
 
@@ -298,7 +301,8 @@ def run(tier: str) -> int:
     importlib.reload(M)
     files = {M.__file__}
     bound = 2 if tier == "quick" else 3
-    per = {"new-channel-2pub-1sub": 220, "two-channels-wildcard": 120, "existing-channel": 80, "pattern-routing": 80} if tier == "quick" else \
+    per = {"new-channel-2pub-1sub": 220, "two-channels-wildcard": 120, "existing-channel": 80, "pattern-routing": 80,
+           "2sub-same-channel": 160, "exact-and-wildcard-sub": 100} if tier == "quick" else \
           {k: 1500 for k in SCENARIOS}
     stats = {"executions": 0, "distinct_schedules": 0, "by_scenario": {}, "max_points": 0, "preemption_bound": bound,
              "timeouts": 0, "model_runs": 0, "model_losing": 0}
